@@ -407,6 +407,11 @@ impl Settings {
   pub fn bitcoin_rpc_client(&self, wallet: Option<String>) -> Result<Client> {
     let rpc_url = self.bitcoin_rpc_url(wallet);
 
+    #[cfg(feature = "verif")]
+    if let Some(client) = crate::verif::rpc_client(&rpc_url) {
+      return client;
+    }
+
     let bitcoin_credentials = self.bitcoin_credentials()?;
 
     log::trace!(
@@ -463,6 +468,10 @@ impl Settings {
       }
 
       checks += 1;
+      #[cfg(feature = "verif")]
+      if crate::verif::sleep(Duration::from_millis(100)) {
+        continue;
+      }
       thread::sleep(Duration::from_millis(100));
     };
 
